@@ -730,7 +730,8 @@ func (d *structDecoder) DecodeStream(s *Stream, depth int64, p unsafe.Pointer) e
 		}
 		s.cursor++
 		if field != nil {
-			if field.err != nil {
+			if field.err != nil && *(*unsafe.Pointer)(unsafe.Pointer(uintptr(p) + field.offset)) == nil {
+				// the embedded pointer to an unexported struct cannot be allocated; one that is already set is used
 				return field.err
 			}
 			if firstWin {
@@ -820,7 +821,8 @@ func (d *structDecoder) Decode(ctx *RuntimeContext, cursor, depth int64, p unsaf
 			return 0, errors.ErrExpected("object value after colon", cursor)
 		}
 		if field != nil {
-			if field.err != nil {
+			if field.err != nil && *(*unsafe.Pointer)(unsafe.Pointer(uintptr(p) + field.offset)) == nil {
+				// the embedded pointer to an unexported struct cannot be allocated; one that is already set is used
 				return 0, field.err
 			}
 			if firstWin {
